@@ -41,6 +41,12 @@ ASSUMPTIONS = [
     "manual zones come from the zoneDefinitions setting through Core.buildManualZones and are disjoint; after convert a zone holds its "
     "locations plus the 120/240-degree images of its member assemblies ('thisZone.addLoc(newAssem.getLocation())'); restore is only "
     "required not to lose the defined locations (armi leaves the added ones in the zones; not documented either way)",
+    "a third core carrying edge assemblies holds the same mass per nuclide and volume as without them (HexBlock.getSymmetryFactor: both "
+    "lines are halves), asserted when position (-1, 2) is occupied (armi detects the edge model through that position), rel 1e-10",
+    "armi's removal protocol add -> results written -> scaleParamsRelatedToSymmetry -> remove: scalar volume-integrated parameters written "
+    "(non-zero, on every block) after the add come back on the 0-degree line as lower + upper half, everything not written since the add is "
+    "unchanged; the multigroup-flux branch (_scaleFluxValues) is not driven with written values",
+    "one EdgeAssemblyChanger may live across E.add, T.convert, T.restore, E.remove, E.add (removeEdgeAssemblies always ends with reset())",
     "children of blocks with a lattice may sit on a single off-centre site (IndexLocation) or at free coordinates (CoordinateLocation in the "
     "block grid); HexBlock.rotate documents that both are rotated with the block",
     "hex reference geometry vp/model/hexmodel.py (cube-coordinate rotation, symmetry lines) is independent of armi",
@@ -1107,13 +1113,14 @@ def execute(case):
 
 
 PARTS = [
-    Part("programs", execute, strategy=strategy, budget={"quick": 210, "thorough": 20000}, procs={"quick": 6, "thorough": 16},
+    Part("programs", execute, strategy=strategy, budget={"quick": 200, "thorough": 20000}, procs={"quick": 6, "thorough": 16},
          rule="Hypothesis: third-core hex reactor from blueprint text (2-5 rings, holes, centre assembly dropped in 1 of 5, flats/corners up, pin "
               "lattices), initial values for a drawn subset of 24 block parameters (14 volume integrated; scalars, lists, arrays, 6-vectors on "
               "corners/edges, displacement) and composition edits, then a program of <= 12 steps over convert (changer or Core.growToFullCore) / "
               "restorePreviousGeometry (0-3 leading convert/restore rounds re-use ONE changer object, optional second restore; pin-lattice blocks "
               "carry children on a single off-centre site or at free coordinates; manual zones cover all / some / none of the assemblies; a "
-              "second changer may add edges over occupied positions) / addEdgeAssemblies / removeEdgeAssemblies / parameter assignment / number-density edit with a swarm subset "
+              "second changer may add edges over occupied positions; one long-lived edge changer across a convert/restore; the add -> write -> "
+              "scaleParamsRelatedToSymmetry -> remove protocol; mass/volume with edge assemblies = without) / addEdgeAssemblies / removeEdgeAssemblies / parameter assignment / number-density edit with a swarm subset "
               "of enabled kinds; non-trivial = centre assembly present, >= 1 assembly on the 0-degree symmetry line and at least one effective "
               "conversion or edge addition; oracle: rotation closure of the cells, copies equal to their source up to the documented rotation, "
               "identity-disjoint, unique names/serials, x3 on mass per nuclide / volume / parameter totals, observe() snapshot + identity of the "
